@@ -1,6 +1,6 @@
 (* Correspondence and property predicates for the cases written by harness/cmd/h_adapt. *)
 From Coq Require Import String Ascii List Bool ZArith Arith.
-From NRI Require Import Base.Strs Base.Assoc Model.Types Model.Result Model.Generate Spec.Apply Spec.AbsLedger Spec.Updates Spec.GenSpec.
+From NRI Require Import Base.Strs Base.Assoc Model.Types Model.Result Model.Generate Spec.Apply Spec.AbsLedger Spec.Updates Proofs.CombineWf Spec.GenSpec.
 Import ListNotations.
 Open Scope string_scope.
 Open Scope list_scope.
@@ -108,12 +108,15 @@ Definition holds_C02 (c : adapt_case) : bool :=
 Definition holds_C03 (c : adapt_case) : bool :=
   match ac_req c, ac_err c with
   | RCreate c0, O =>
-      (match ac_combined c, ac_sequential c with
-       | Some a, Some b => spec_obs_eqb a b
-       | _, _ => false
-       end) &&
-      obs_eqb (apply_adj c0 (ac_reply c)) (apply_all c0 (adjs_of (ac_resps c))) &&
-      list_eqb String.eqb (a_cdi (ac_reply c)) (concat (map a_cdi (adjs_of (ac_resps c))))
+      (* outside the domain of the theorems (Proofs/CombineWf.v: a marker of a marker, '=' in an env name,
+         a command line that is only the removal marker or begins with it twice) the statement is silent *)
+      negb (wf_create c0 (ac_resps c)) ||
+      ((match ac_combined c, ac_sequential c with
+        | Some a, Some b => spec_obs_eqb a b
+        | _, _ => false
+        end) &&
+       obs_eqb (apply_adj c0 (ac_reply c)) (apply_all c0 (adjs_of (ac_resps c))) &&
+       list_eqb String.eqb (a_cdi (ac_reply c)) (concat (map a_cdi (adjs_of (ac_resps c)))))
   | _, _ => true
   end.
 
@@ -132,6 +135,8 @@ Definition holds_C04 (c : adapt_case) : bool :=
   match ac_req c with
   | RCreate c0 =>
       views_ok 0 (ac_views c) (fun i v =>
+        (* W4: silent once an earlier plugin sent the bare removal marker as its command line *)
+        negb (wf_views (firstn i (ac_resps c))) ||
         match v with
         | ShownContainer x => obs_eqb x (apply_all c0 (firstn i (adjs_of (ac_resps c))))
         | _ => false
